@@ -1434,6 +1434,14 @@ def traj_part(run, r, runner, n):
         for xs in ([0.25, 1.5], [0.75, 1.0]):
             scn += ["pos 1 0 0 %s" % hx(xs[0]), "pos 2 0 0 %s" % hx(xs[1]), "step", "rdump"]
         scn += ["postrun", "echo END %d" % k]
+    # ABMD: the reference value column ref_<variable>
+    kab = n + 2
+    abx = [0.5, 1.0, 0.75, 1.5, 1.25, 2.5, 3.0]
+    scn += ["echo CASE %d" % kab, "natoms 1", "prefix tab", "new", "config EOF", "colvarsTrajFrequency 1"] + colvar_block(0, {"w": 1.0, "per": False}) + \
+           ["abmd {", "  name r", "  colvars v0", "  forceConstant 2.0", "  stoppingValue 2.0", "}", "EOF", "show atomf 0 cv 0 energy 0 bias 0"]
+    for x in abx:
+        scn += ["pos 1 0 0 %s" % hx(x), "step", "rdump"]
+    scn += ["postrun", "echo END %d" % kab]
     rc2, iout, e2 = V.run_lines(runner.unit, scn, cwd=runner.scratch)
     impl = parse_impl(iout)
 
@@ -1479,6 +1487,21 @@ def traj_part(run, r, runner, n):
                 run.violation("traj:columns", "step %d: trajectory columns %r, members E %r centres %r W %r" % (o["it"], col, o["E"], o["C"], o["W"]), rp)
                 break
         run.count("traj%d" % k, True)
+    cs = impl.get(kab)
+    run.dist("traj:abmd")
+    if cs is None or not cs["complete"] or len(cs["steps"]) != len(abx):
+        run.mismatch("traj", "abmd", ((cs or {}).get("config", []) + (cs or {}).get("raw", []))[-3:], "complete run")
+    else:
+        labels, rows = read_traj(os.path.join(runner.scratch, "tab.colvars.traj"))
+        if labels != ["step", "v0", "ref_v0"]:
+            run.violation("traj:labels", "ABMD: columns %r, expected step v0 ref_v0" % labels, {"kind": "traj", "case": "abmd"})
+        else:
+            for o in cs["steps"]:
+                row = rows.get(o["it"])
+                if row is None or not c14(row[1], o["REF"]):
+                    run.violation("traj:columns", "ABMD step %d: trajectory line %r, reference value %r" % (o["it"], row, o["REF"]), {"kind": "traj", "case": "abmd"})
+                    break
+        run.count("traj:abmd", True)
     for j, (fn, ref) in enumerate(hfiles):
         k = n + j
         cs = impl.get(k)
@@ -1526,6 +1549,7 @@ def badconfig_part(run, runner):
         ("walls:zero-wall-constant", Wl("v0", "lowerWalls 1.0", "upperWalls 2.0", "lowerWallConstant 0.0", "upperWallConstant 1.0")),
         ("walls:equal-in-the-period", Wl("v1", "lowerWalls -1.0", "upperWalls 3.0")),
         ("linear:periodic-variable", ["linear {", "  name r", "  colvars v1", "  centers 1.0", "}"]),
+        ("abmd:two-variables", ["abmd {", "  name r", "  colvars v0 v1", "  forceConstant 1.0", "  stoppingValue 2.0", "}"]),
         ("histogram:zero-width", ["histogramRestraint {", "  name r", "  colvars v0", "  lowerBoundary 0", "  upperBoundary 2", "  width 0", "  refHistogram 1 1", "}"]),
         ("histogram:upper-below-lower", ["histogramRestraint {", "  name r", "  colvars v0", "  lowerBoundary 2", "  upperBoundary 0", "  width 0.5", "  refHistogram 1 1", "}"]),
         ("histogram:two-references", ["histogramRestraint {", "  name r", "  colvars v0", "  lowerBoundary 0", "  upperBoundary 1", "  width 0.5", "  refHistogram 1 1", "  refHistogramFile nofile.dat", "}"]),
